@@ -731,6 +731,17 @@ fn resolve_regions(
             .with_context(|| format!("size of type `{resolvee_path}` overflows"))?;
     }
 
+    // The fields of the emitted struct are these regions: a declared name may neither repeat
+    // nor coincide with a generated one (`vftable`, `_field_<offset>`).
+    let mut seen = HashSet::new();
+    for region in &resolved.regions {
+        if let Some(name) = region.name.as_deref() {
+            if !seen.insert(name) {
+                anyhow::bail!("type `{resolvee_path}` has more than one field named `{name}`");
+            }
+        }
+    }
+
     // Check that the final size is equal to the target size
     if let Some(target_size) = target_size {
         if size != target_size {
